@@ -19,3 +19,20 @@ def replay_payload(p):
         from . import conc
         return conc.replay(p)
     raise ValueError("unknown engine %r" % (eng,))
+
+
+def minimise(p):
+    eng = p["engine"]
+    mod = None
+    if eng == "filter_machine":
+        from .machines import filter as mod
+    elif eng == "models_machine":
+        from .machines import models as mod
+    elif eng == "radius_machine":
+        from .machines import radius as mod
+    elif eng in ("pair", "faithful"):
+        from . import pairs as mod
+    elif eng in ("threads", "repeat", "nested", "args"):
+        from . import conc as mod
+    fn = getattr(mod, "minimise", None) if mod is not None else None
+    return fn(p) if fn else p
